@@ -29,7 +29,7 @@ import (
 
 const rule = "case = (primary history of 3-170 steps over put/del/tx/batch/flush run on a real engine with a real Primary on its log, " +
 	"delivery schedule of up to 60 stream messages built from what that primary pushes and what it answers to poll/resend/reconnect requests, " +
-	"each message optionally cut short, with an inner entry removed, really compressed (zstd/snappy) or carrying the primary's own label, " +
+	"each message optionally cut short, with an inner entry removed, or disturbed inside with first entry, last entry and length kept (an inner entry replaced by a copy of its neighbour, two inner entries or only their sequence numbers swapped), really compressed (zstd/snappy) or carrying the primary's own label, " +
 	"handed to a real Replica through the streaming path or the waiting-for-data path; NACKs are answered by a resend from the requested position, " +
 	"connection resets restart from the replica's expected position); oracle = after every applied entry the replica's data equals a prefix state " +
 	"S_p of the program's model with p never decreasing, every applied entry is an effect of the primary operation carrying its sequence number, " +
@@ -197,6 +197,26 @@ func decorate(t *rapid.T, m *Msg, avail int) {
 	if avail >= 3 && rapid.IntRange(0, 11).Draw(t, "hole") == 0 {
 		if ev.Flag("noncontig_msg") {
 			m.Drop = []int{rapid.IntRange(1, avail-2).Draw(t, "holepos")}
+		} else {
+			ev.R().Exclude("noncontig_msg")
+		}
+	}
+	// same span, disturbed inside (takes the place of a hole)
+	if avail >= 3 && len(m.Drop) == 0 && rapid.IntRange(0, 9).Draw(t, "innerfault") == 0 {
+		if ev.Flag("noncontig_msg") {
+			kind := rapid.SampledFrom([]string{"dup", "dup", "swap", "swap", "seqswap"}).Draw(t, "innerkind")
+			i := rapid.IntRange(1, avail-2).Draw(t, "inner_i")
+			f := &InnerFault{Kind: kind, I: i}
+			if kind == "dup" || avail < 4 {
+				f.Kind = "dup"
+				f.J = i + rapid.SampledFrom([]int{-1, 1}).Draw(t, "inner_nb")
+			} else {
+				f.J = rapid.IntRange(1, avail-3).Draw(t, "inner_j")
+				if f.J >= i {
+					f.J++
+				}
+			}
+			m.Inner = f
 		} else {
 			ev.R().Exclude("noncontig_msg")
 		}
@@ -524,6 +544,10 @@ func runCase(c *Case, next func(st *genState, h *history) *Msg) (out outcome) {
 	add(r.sawDup, "stale_message")
 	add(r.sawGap, "message_ahead")
 	add(r.sawHole, "inner_hole")
+	add(r.sawInner["dup"], "inner_fault_same_span(dup+drop)")
+	add(r.sawInner["swap"], "inner_fault_same_span(swap)")
+	add(r.sawInner["seqswap"], "inner_fault_same_span(seqswap)")
+	add(len(r.sawInner) > 0, "inner_fault_same_span")
 	add(r.sawReset, "reset")
 	add(r.sawCompressed, "really_compressed")
 	add(r.sawMislabel, "primary_label_compressed")
